@@ -22,8 +22,8 @@ import (
 
 // Re-exported names so that code written against package os compiles.
 type (
-	FileMode = fs.FileMode
-	FileInfo = fs.FileInfo
+	FileMode  = fs.FileMode
+	FileInfo  = fs.FileInfo
 	PathError = fs.PathError
 )
 
@@ -101,6 +101,21 @@ type disk struct {
 }
 
 var d = newDisk()
+
+// Latency, when set, is slept (outside any simfs lock) at the start of every
+// open/create/sync/close/rename/remove: disk operations take time, and because
+// the duration depends on the path the two snapshot writers, which are woken by
+// tickers with one interval, never act at the same virtual instant. Reads and
+// writes do not sleep: the snapshot writers hold a store lock while writing.
+var Latency func(kind, path string) time.Duration
+
+func lag(kind, path string) {
+	if f := Latency; f != nil {
+		if dl := f(kind, path); dl > 0 {
+			time.Sleep(dl)
+		}
+	}
+}
 
 func newDisk() *disk {
 	return &disk{files: map[string]*inode{}, counts: map[string]int{}, crashed: map[string]bool{}, fired: map[string]int{}}
@@ -442,6 +457,7 @@ func (f *File) Seek(off int64, whence int) (int64, error) {
 }
 
 func (f *File) Sync() error {
+	lag("sync", f.name)
 	f.mu.Lock()
 	defer f.mu.Unlock()
 	d.mu.Lock()
@@ -484,6 +500,9 @@ func (f *File) Truncate(size int64) error {
 }
 
 func (f *File) Close() error {
+	if f.flag&(O_WRONLY|O_RDWR) != 0 {
+		lag("close", f.name)
+	}
 	f.mu.Lock()
 	defer f.mu.Unlock()
 	d.mu.Lock()
@@ -533,6 +552,7 @@ func base(p string) string {
 }
 
 func OpenFile(name string, flag int, perm FileMode) (*File, error) {
+	lag("open", name)
 	d.mu.Lock()
 	in, ok := d.files[name]
 	mutating := flag&(O_CREATE|O_TRUNC) != 0
@@ -595,6 +615,7 @@ func CreateTemp(dir, pattern string) (*File, error) {
 }
 
 func Rename(oldpath, newpath string) error {
+	lag("rename", newpath)
 	d.mu.Lock()
 	err, _, _, cb := d.begin("rename", oldpath, newpath)
 	if err == nil {
@@ -615,6 +636,7 @@ func Rename(oldpath, newpath string) error {
 }
 
 func Remove(name string) error {
+	lag("remove", name)
 	d.mu.Lock()
 	err, _, _, cb := d.begin("remove", name, "")
 	if err == nil {
